@@ -593,7 +593,7 @@ _OP_WEIGHTS = [("push_child", 30), ("push_children", 9), ("remove", 11), ("remov
                ("put_initial_value", 2), ("copy_to", 2)]
 _OP_POOL = [k for k, w in _OP_WEIGHTS for _ in range(w)]
 _FRAGMENTS = [("one", 66), ("move", 12), ("ref-remove", 4), ("ref-replace", 4), ("chain", 5), ("ruby", 3), ("move-doc", 3), ("rtc", 3),
-              ("cycle", 4)]
+              ("cycle", 4), ("ref-ruby", 3)]
 _FRAGMENT_POOL = [k for k, w in _FRAGMENTS for _ in range(w)]
 
 
@@ -637,6 +637,16 @@ def _fragment(draw):
     ruby = _name(d, "Ruby", i)
     return [("push_children", ruby, _pattern_items(draw, draw(st.sampled_from(mu.RUBY_PUSHABLE)), d, stray=0), "list"),
             ("push_child", _name(d, "P", j), ruby)]
+  if f == "ref-ruby":
+    # a ruby below the body, one of its parts referencing a region that is then removed or replaced
+    b, dv, p, ruby = (_name(d, k, 1) for k in ("Body", "Div", "P", "Ruby"))
+    pattern = draw(st.sampled_from(mu.RUBY_PUSHABLE))
+    items = _pattern_items(draw, pattern, d, stray=0)
+    x = draw(st.sampled_from(items + [ruby]))
+    build = [("set_body", d, b), ("push_child", b, dv), ("push_child", dv, p), ("push_children", ruby, items, "list"), ("push_child", p, ruby)]
+    if draw(st.booleans()):
+      return build + [("put_region", d, d + ".rA"), ("set_region", x, d + ".rA"), ("remove_region", d, mu.REGION_IDS["rA"])]
+    return build + [("put_region", d, d + ".rA"), ("set_region", x, d + ".rA"), ("put_region", d, d + ".rA2")]
   if f == "rtc":
     rtc = _name(d, "Rtc", i)
     a = draw(st.integers(1, 2))
